@@ -51,6 +51,16 @@ CHECKS = {
               "theorem; it is validated by K-calc (a random unit per input: a bare-magnitude read in the code is a "
               "disagreement) and searched by rebuilding the same model with every input re-expressed."),
         design="§7 C10"),
+    "C11": dict(
+        technique="Lean 4 theorems on convertToUtc for an arbitrary resolution function + K-tz correspondence with pandas/pytz",
+        text=("Proved in Lean for every resolution function (hence every zone and transition table) and every series: "
+              "the total is preserved, the UTC index is strictly increasing without duplicates, the value at a UTC "
+              "instant is the sum of the local hours resolving to it (merged, never dropped); an existing local time "
+              "is placed at local − offset in force. The zone resolution (pandas tz_localize semantics on pytz tables, "
+              "incl. its treatment of non-hour gaps) is a modelled contract validated by K-tz on every run (quick: 40 "
+              "zones; thorough: all pytz zones × all transitions 1950-2037). Finding D7 (index not sorted) was "
+              "repaired by a fix: commit."),
+        design="§7 C11"),
     "C12": dict(
         technique="Lean 4 linearity theorems on Model A/B chains + K-calc correspondence + ratio oracle",
         text=("Proved in Lean: scalar driver × k ⇒ hourly product × k at every hour, through `.to`; divisor × k ⇒ "
